@@ -34,8 +34,9 @@ K_BAL_STALE = 'C08/operating-handle/balance-kept-when-account-emptied'
 K_KEYBAL_STALE = 'C08/operating-handle/keys-balance-stale-identity-map'
 K_RELOAD_P2SH_P2WSH = 'C08/reload/p2sh-p2wsh-multisig-scriptsig-recomputed'
 K_UTXOS_STRIP = 'C08/utxos/live-rows-stripped-of-orm-state'
+K_CROSS_ACCOUNT = 'C08/multi-account/one-transaction-paying-two-accounts-booked-under-one'
 
-OPS = ['send_refused_keep', 'new_key', 'get_key', 'new_key_change', 'fund_update', 'fund_update', 'update', 'update_lag', 'utxo_add', 'update_list',
+OPS = ['send_refused_keep', 'new_account', 'new_key', 'get_key', 'new_key_change', 'fund_update', 'fund_update', 'update', 'update_lag', 'utxo_add', 'update_list',
        'send', 'send', 'send', 'send_nobroadcast', 'send_fail', 'sweep', 'import_raw', 'delete', 'mine', 'reopen', 'reopen']
 
 
@@ -55,11 +56,17 @@ class History:
         self.S = set()           # outpoints consumed by transactions the wallet has sent
         self.sent = {}           # txid -> raw bytes broadcast
         self.ops = []
+        self.accounts = [0]
+        self.addr_acc = {}
+        self.cross_account = bool(case.get('cross_account'))
+        self.allow_cross = bool(case.get('allow_cross')) or bool(os.environ.get('C08_ALLOW_CROSS'))
+        self.last_fund = None
         self.kept = []           # objects a caller may legitimately keep (exceptions of refused requests)
         self.states = set()
-        own = self.ctx.own_addresses()
+        own = self.ctx.own_addresses(accounts=(0, 1, 2, 3))
         w = self.ctx.w
         first = w.get_key().address
+        self.addr_acc[first] = 0
         if first not in own:
             col.violation(None, 'wallet address is not a reference address of this wallet (see C09)', case, first, None)
         self.known.add(first)
@@ -70,11 +77,16 @@ class History:
 
     def add_addr(self, wk):
         a = wk.address
-        if a not in self.ctx.own_addresses(upto=120):
+        self.addr_acc[a] = wk.account_id or 0
+        if a not in self.ctx.own_addresses(upto=120, accounts=(0, 1, 2, 3)):
             self.col.violation(None, 'key %s handed out by the wallet is not at a reference path of this wallet (see C09)' % a, self.case, a, None)
         self.known.add(a)
 
     def viol(self, key, desc, obs=None, exp=None):
+        if key is None and self.cross_account and (desc.startswith('I1') or desc.startswith('I2') or desc.startswith('rows')):
+            # dedicated scenario: one funding transaction pays keys of two accounts; the library books the transaction
+            # (and with it all its outputs) under one account, so per-account / per-key sums disagree
+            key = K_CROSS_ACCOUNT
         self.col.violation(key, '[%s step %d %s] %s' % (self.case['kind'] + '/' + self.case['wt'], len(self.ops), self.ops[-1] if self.ops else '-', desc),
                            dict(self.case, ops=list(self.ops)), obs, exp)
 
@@ -89,23 +101,35 @@ class History:
         CH.snapshot()
         scale = 100000 if network.startswith('dogecoin') else 1
         try:
+            acc = rnd.choice(self.accounts)
             if op == 'new_key':
                 if ctx.kind != 'single':
-                    self.add_addr(w.new_key())
+                    self.add_addr(w.new_key(account_id=acc))
             elif op == 'get_key':
-                self.add_addr(w.get_key())
+                self.add_addr(w.get_key(account_id=acc))
             elif op == 'new_key_change':
                 if ctx.kind != 'single':
-                    self.add_addr(w.new_key_change())
+                    self.add_addr(w.new_key_change(account_id=acc))
+            elif op == 'new_account':
+                if ctx.kind == 'hd' and len(self.accounts) < 3:
+                    a = w.new_account()
+                    self.accounts.append(a.account_id)
+                    self.add_addr(w.get_key(account_id=a.account_id))
             elif op in ('fund_update', 'update', 'update_lag'):
                 if op == 'fund_update':
                     for _ in range(rnd.randint(1, 3)):
                         v = rnd.choice([600, 5000 * scale, 10 ** 5 * scale + rnd.randrange(1000), 10 ** 7 * scale + rnd.randrange(1000), 10 ** 8 * scale + rnd.randrange(1000)])
-                        CH.fund(rnd.choice(sorted(self.known)), v, network, confirmed=rnd.random() < 0.75)
+                        dest = rnd.choice(sorted(self.known))
+                        same = self.last_fund if (rnd.random() < 0.4 and self.last_fund in CH.utxos) else None
+                        if same is not None and not self.cross_account and not self.allow_cross and \
+                                self.addr_acc.get(CH.utxos[same]['address'], 0) != self.addr_acc.get(dest, 0):
+                            same = None   # a funding transaction paying two accounts is exercised only in the dedicated scenario
+                        self.last_fund = CH.fund(dest, v, network, confirmed=rnd.random() < 0.75, same_tx_as=same)
                 if op == 'update_lag' and len(CH.snapshots) > 2:
                     CH.faults['lag'] = rnd.randint(1, min(4, len(CH.snapshots) - 1))
                 try:
-                    w.utxos_update()
+                    for a_ in self.accounts:
+                        w.utxos_update(account_id=a_)
                 finally:
                     lagged = bool(CH.faults.get('lag'))
                     CH.faults['lag'] = 0
@@ -115,7 +139,7 @@ class History:
                     self.E = self.model_unspent_known()
                     self.sync = True
             elif op == 'utxo_add':
-                a = rnd.choice(sorted(self.known))
+                a = rnd.choice(sorted(x for x in self.known if self.addr_acc.get(x, 0) == 0))
                 v = 10 ** 6 * scale + rnd.randrange(1000)
                 txid, n = CH.fund(a, v, network, confirmed=True)
                 w.utxo_add(a, v, txid, n, confirmations=1)
@@ -127,14 +151,21 @@ class History:
                     u = CH.utxos[(txid, n)]
                     lst.append({'address': u['address'], 'script': '', 'confirmations': CH.confirmations(u), 'output_n': n, 'txid': txid, 'value': v})
                 if lst:
-                    w.utxos_update(utxos=lst)
+                    for a_ in self.accounts:
+                        sub = [u for u in lst if self.addr_acc.get(u['address'], 0) == a_]
+                        if sub:
+                            w.utxos_update(account_id=a_, utxos=sub)
+                    # accounts whose list is empty keep what they had: resynchronise those through the provider
+                    for a_ in self.accounts:
+                        if not [u for u in lst if self.addr_acc.get(u['address'], 0) == a_]:
+                            w.utxos_update(account_id=a_)
                     self.E = dict(cur)
                     self.sync = True
             elif op in ('send', 'send_nobroadcast', 'send_fail', 'sweep'):
                 self.do_send(op)
             elif op == 'send_refused_keep':
                 # a request refused *after* input selection (fee far above the limit); the caller keeps the exception object
-                bal = sum(self.E.values()) if self.sync else 0
+                bal = int(w.balance())
                 if bal > 200000:
                     addr, _ = wallet_env.external_address(rnd, network)
                     try:
@@ -178,7 +209,8 @@ class History:
         rnd, CH, ctx = self.rnd, self.CH, self.ctx
         w = ctx.w
         network = ctx.network
-        bal = sum(self.E.values()) if self.sync else int(w.balance())
+        acc = rnd.choice(self.accounts)
+        bal = int(w.balance(account_id=acc))
         if bal < 30000:
             return
         addr, script = wallet_env.external_address(rnd, network)
@@ -190,10 +222,10 @@ class History:
         t = None
         try:
             if op == 'sweep':
-                t = w.sweep(addr, min_confirms=min_confirms, broadcast=True)
+                t = w.sweep(addr, account_id=acc, min_confirms=min_confirms, broadcast=True)
             else:
                 amt = rnd.choice([bal // 10, bal // 3, max(2000, bal - 200000), 1500])
-                t = w.send_to(addr, amt, min_confirms=min_confirms, broadcast=broadcast, priv_keys=ctx.extra_priv or None,
+                t = w.send_to(addr, amt, account_id=acc, min_confirms=min_confirms, broadcast=broadcast, priv_keys=ctx.extra_priv or None,
                               number_of_change_outputs=rnd.choice([1, 1, 2, 0]))
         finally:
             CH.faults['send'] = None
@@ -212,7 +244,7 @@ class History:
                 self.E.pop(op_, None)
             for n, o in enumerate(p['outs']):
                 a = rchain.address_for_script(network, o['script'])
-                if a in self.known or a in ctx.own_addresses(upto=120):
+                if a in self.known or a in ctx.own_addresses(upto=120, accounts=(0, 1, 2, 3)):
                     self.known.add(a)
                     self.E[(txid, n)] = o['value']
         elif new_b:
@@ -220,29 +252,36 @@ class History:
 
     # -------------------------------------------------------------- invariants
     def read(self, h):
+        per = {}
+        for a in self.accounts:
+            per[a] = (h.balance(account_id=a), h.utxos(account_id=a))
+        bal = h.balance()      # what a caller without arguments sees (default account)
         ut = h.utxos()
-        bal = h.balance()
         keys = h.keys()
-        return bal, ut, keys
+        return per, bal, ut, keys
 
     def check_handle(self, h, which):
         col = self.col
         col.probe('quiescent_check')
         try:
-            bal, ut, keys = self.read(h)
+            per, bal_default, ut_default, keys = self.read(h)
         except Exception as e:
             txt = '%s: %s' % (type(e).__name__, str(e)[:200])
             del e
             self.viol(K_UTXOS_STRIP if ('_sa_instance_state' in txt and self.kept and which == 'operating') else None,
                       '%s handle: reading balance/utxos/keys raised %s' % (which, txt), txt, None)
             return None
+        ut = [u for a in self.accounts for u in per[a][1]]
         su = sum(u['value'] for u in ut)
         lib_set = {(u['txid'], u['output_n']): u['value'] for u in ut}
         kb = sum(int(k.balance or 0) for k in keys)
-        res = {'bal': bal, 'su': su, 'kb': kb, 'set': lib_set}
-        if bal != su:
-            key = K_BAL_STALE if (which == 'operating' and su == 0 and bal > 0) else None
-            self.viol(key, 'I1 %s handle: balance() %s != sum(utxos()) %s' % (which, bal, su), {'balance': bal, 'sum_utxos': su}, 'equal')
+        res = {'bal': sum(per[a][0] for a in self.accounts), 'su': su, 'kb': kb, 'set': lib_set}
+        checks = [('account %d' % a, per[a][0], sum(u['value'] for u in per[a][1])) for a in self.accounts]
+        checks.append(('default', bal_default, sum(u['value'] for u in ut_default)))
+        for label, bal, su_a in checks:
+            if bal != su_a:
+                key = K_BAL_STALE if (which == 'operating' and su_a == 0 and bal > 0) else None
+                self.viol(key, 'I1 %s handle (%s): balance() %s != sum(utxos()) %s' % (which, label, bal, su_a), {'balance': bal, 'sum_utxos': su_a}, 'equal')
         if kb != su:
             res['kb_bad'] = True
         # I2b WalletKey.balance() of up to 3 funded keys
@@ -393,6 +432,34 @@ def run_history(case, col):
         pass
 
 
+def run_cross_account_scenario(col, spec):
+    """Fixed witness scenario for K_CROSS_ACCOUNT (kept out of the random histories so that it cannot absorb anything else)."""
+    from vf import chain_model
+    case = {'wseed': 'xacc-%d' % spec['seed'], 'kind': 'hd', 'wt': 'segwit', 'network': 'bitcoinlib_test', 'n_ops': 0, 'cross_account': True,
+            'ops': []}
+    try:
+        H = History(case, col)
+    except Exception as e:
+        col.violation(None, 'creating the wallet raised %r' % (e,), case, repr(e), None)
+        return
+    CH = chain_model.CHAIN
+    w = H.ctx.w
+    for op in ('new_account',):
+        H.step(op)
+    a0 = sorted(a for a, acc in H.addr_acc.items() if acc == 0)[0]
+    a1 = sorted(a for a, acc in H.addr_acc.items() if acc == 1)[0]
+    CH.fund(a1, 100083, case['network'])                 # account 1 key also has an output of its own transaction
+    op1 = CH.fund(a0, 70000, case['network'])
+    CH.fund(a1, 5000, case['network'], same_tx_as=op1)   # ... and one in a transaction that pays account 0 first
+    H.ops.append('fund_two_accounts_one_tx')
+    for a_ in H.accounts:
+        w.utxos_update(account_id=a_)
+    H.E = H.model_unspent_known()
+    H.sync = False     # which account lists the outputs is exactly what is wrong here
+    H.check_all()
+    col.case('history/cross-account-scenario', nontrivial=('xacc',), sample={'scenario': 'one funding tx pays account 0 and account 1'})
+
+
 def replay(case, col):
     if not selfcheck(col):
         return
@@ -433,6 +500,8 @@ def run_shard(spec, col):
         case = {'wseed': '%d-%d-%d' % (spec['seed'], spec['shard'], k), 'kind': kind, 'wt': wt, 'network': network,
                 'n_ops': rnd.randint(12, spec['max_ops'])}
         run_history(case, col)
+    if spec['shard'] == 0:
+        run_cross_account_scenario(col, spec)
     st = col.extra.get('abstract_states')
     if st is not None:
         col.extra['abstract_states'] = len(st)
